@@ -82,7 +82,7 @@ class Check:
     self.assumptions: list[str] = []
     self.notes: list[str] = []
     self._known = self._load_known()
-    self.max_violation_files = 12   # one replay file per violation class
+    self.max_violation_files = int(os.environ.get('VERIF_MAX_CLASSES', '12'))   # one replay file per violation class
 
   # ---- known findings
   def _load_known(self):
